@@ -534,7 +534,28 @@ def shard_ties(sh, ctx):
                     'route': route, 'note': 'tie neighbour below'})
 
 
+TOP_X = (1.75e308, 1.79769313486231e308, 1.5e308, 9.99999999999999e307)
+TOP_DIGITS = (-308, -307, -300, -10, 0, 5)
+TOP_SIGS = (1e308, 3e307, 1.0, 1e300)
+
+
+def top_of_range(sh, ctx):
+    """Results that would exceed the largest double: an error value, never
+    infinity or a Python exception."""
+    for x0 in TOP_X:
+        x = sh['sign'] * x0
+        rounding_calls(ctx, 'extreme', x, sh['route'], TOP_DIGITS,
+                       ('magnitude:top-of-range',))
+        for fn in ('CEILING', 'FLOOR'):
+            for sg in TOP_SIGS:
+                for sgn in (1, -1):
+                    run_case(ctx, 'extreme', fn, (x, sgn * sg), sh['route'],
+                             ('magnitude:top-of-range',))
+
+
 def shard_extreme(sh, ctx):
+    if sh['m'] == EXTREME_M[0]:
+        top_of_range(sh, ctx)
     for e in EXTREME_E:
         x = lat_value(sh['m'], e, sh['sign'])
         rounding_calls(ctx, 'extreme', x, sh['route'], DIGITS,
